@@ -264,9 +264,10 @@ CATALOGUE = [
     ("dadd", ["2012-01-31T22:30:00", "-f", "%FT%T"], ("stdin",), "durs"),
     ("dadd", ["-q", "2011-W52-7"], ("stdin",), "durs"),
 ]
-DURS_OK = ["+1d", "-3d", "+2w", "1mo", "-1mo", "+1y", "1y2mo", "3d12h", "+5b", "-5b", "+36h", "90m", "+86400s", "-1s", "1q"]
+DURS_OK = ["+1d", "-3d", "+2w", "1mo", "-1mo", "+1y", "1y2mo", "3d12h", "+5b", "-5b", "+36h", "90m", "+86400s", "-1s", "1q",
+           "1d", "2d", "1w", "12h", "45m"]
 DURS_HALF = ["3d foo", "+1h x", "1w2", "+1mo!", "2d 5", "+1y+", "3dd", "1h30mX"]
-DURS_BAD = ["foo", "", "2x", "--3d", "d", "+", "1.5d", "  "]
+DURS_BAD = ["foo", "", "2x", "--3d", "d", "+", "1.5d", "  ", "-x", "-foo", "+?", "-", "/x", "/", "=x", "<y", ">?", "-="]
 
 
 def _dur_inputs(rnd, k):
